@@ -48,4 +48,14 @@ def Decl.name? : Decl → Option String
   | .func n _ _ | .const n _ | .struct n _ | .typeDef n _ | .notation n _ => some n
   | .other _ => none
 
+/-- GooseLang strings are Coq strings: lists of bytes. A string is represented by a Lean `String`
+with one character below 256 per byte (the UTF-8 bytes of the text between the quotes). -/
+def bytesView (s : String) : String := String.ofList (s.toUTF8.toList.map (fun b => Char.ofNat b.toNat))
+
+/-- inverse of `bytesView` on valid UTF-8, for display -/
+def textView (s : String) : String :=
+  match String.fromUTF8? (ByteArray.mk (s.toList.map (fun c => UInt8.ofNat c.toNat)).toArray) with
+  | some t => t
+  | none => s
+
 end GooseVerif.GL
